@@ -669,3 +669,11 @@ Proof.
       rewrite (IH (S i) k cf r); [f_equal; f_equal; lia|exact Hk| |exact Hr].
       intros j cfj Hj Hnth. apply (Hearlier (S j) cfj); [lia|exact Hnth].
 Qed.
+
+(* inversion of format_ok, generic in the table (so that no proof about a concrete table has to unfold format_ok) *)
+Lemma format_ok_inv terms f : format_ok terms f = true ->
+  exists l cf, tokens terms f = Some l /\ compile_with terms f = Some cf.
+Proof.
+  unfold format_ok. destruct (tokens terms f) as [l|]; [|discriminate].
+  destruct (compile_with terms f) as [cf|]; [|discriminate]. intros _. exists l, cf. split; reflexivity.
+Qed.
